@@ -551,6 +551,26 @@ func genLocks(repo, out string, ps []*packages.Package) {
 		fmt.Fprintf(&b, "  ⟨%q, %q, %q, %v, %s⟩ /- %s -/", a.typ, a.meth, a.lock, a.excl, leanList(heldList(a.h, false)), a.pos)
 	}
 	b.WriteString("\n]\n\n")
+	// number of lock acquisition sites per method: the step granularity the small-step models assume
+	b.WriteString("/-- (type, method, mutex, number of Lock/RLock call sites in the method): one critical section per\nacquisition site. The small-step models take each critical section as one atomic step; the property\nfiles pin the counts they rely on. -/\ndef acquireSites : List (String × String × String × Nat) := [\n")
+	cnt := map[string]int{}
+	var ckeys []string
+	for _, a := range acqs {
+		k := a.typ + "|" + a.meth + "|" + a.lock
+		if cnt[k] == 0 {
+			ckeys = append(ckeys, k)
+		}
+		cnt[k]++
+	}
+	sort.Strings(ckeys)
+	for i, k := range ckeys {
+		parts := strings.Split(k, "|")
+		if i > 0 {
+			b.WriteString(",\n")
+		}
+		fmt.Fprintf(&b, "  (%q, %q, %q, %d)", parts[0], parts[1], parts[2], cnt[k])
+	}
+	b.WriteString("\n]\n\n")
 	// entry assumptions, for the record
 	b.WriteString("/-- Locks a private helper may assume held on entry: the intersection over all its call sites. -/\n")
 	b.WriteString("def heldOnEntry : List (String × List String) := [\n")
